@@ -59,6 +59,10 @@ pub(crate) unsafe fn default_pending_bags() -> usize {
     default_collector().global.verif_pending_bags()
 }
 
+pub(crate) unsafe fn default_pending_bag_epochs() -> Vec<usize> {
+    default_collector().global.verif_bag_epochs()
+}
+
 /// A private collector.
 pub struct VCollector(Collector);
 
